@@ -97,7 +97,13 @@ func (p *postprocessor) worker(workerID string) {
 		case <-controlChans.PauseCh:
 			logger.Debug("received pause event")
 			verifhook.At("post.paused", workerID)
-			controlChans.ResumeCh <- struct{}{}
+			// Wait to be resumed, but not beyond shutdown: nobody resumes a stopping pipeline
+			select {
+			case controlChans.ResumeCh <- struct{}{}:
+			case <-p.ctx.Done():
+				logger.Debug("shutting down while paused")
+				return
+			}
 			verifhook.At("post.woken", workerID)
 			logger.Debug("received resume event")
 		case seed, ok := <-p.inputCh:
